@@ -238,7 +238,7 @@ impl Prop for C01 {
         let shape = r.below(SHAPES.len()) as u8;
         let scale = *r.pick(SCALES) / 4.25;
         // mostly 50-400 values; 2% of runs are long, for logic that only engages after thousands of updates
-        let len = if r.chance(0.02) { r.range(4_200, 20_000) } else { r.range(50, 400) };
+        let len = if r.chance(0.012) { crate::feed::long_len(r) } else { r.range(50, 400) };
         let vals = crate::feed::gen_signed(r, shape, len, scale, sign);
         let p_obs = *r.pick(&[0.0, 0.2, 0.5]);
         let early = r.chance(0.3);
@@ -377,7 +377,7 @@ impl Prop for C01 {
     }
 
     fn rule(&self) -> String {
-        "Block 1: every one of the 34 wrappers (32 unary views, PFE, EFT) over every one of the 34 as a two-level chain, repeated with window settings (3,2), (1,1), random 1..9, random 1..64 and with/without a stalled leaf. Block 2: each of Add/Subtract/Multiply/Divide over every ordered pair of wrappers (children stalled independently, so one child is ready long before the other). Block 3: random trees of depth 2-3 (25% combinators, stalled leaves and inner Stall nodes). Leaves in view positions are Probe stubs (Echo semantics + delivery log). One feed of 50-400 values (2% of runs: 4 200-20 000) in 14 workload shapes with extra and early last() calls interleaved. Oracles: per delivery, every probe's log has exactly one new entry carrying the current event number and the fed bit pattern; at the end, for every level of the tree, the composed output sequence is bit-identical to: stand-alone inner subtree -> (only when it has an output) stand-alone outer node built over Echo; for combinators Some iff both stand-alone children are Some, and bit-identical to the combinator over Replay stubs of its children's outputs. distinct = distinct (topology, event-kind schedule); non-trivial = the tree has a stalled child or a combinator."
+        "Block 1: every one of the 34 wrappers (32 unary views, PFE, EFT) over every one of the 34 as a two-level chain, repeated with window settings (3,2), (1,1), random 1..9, random 1..64 and with/without a stalled leaf. Block 2: each of Add/Subtract/Multiply/Divide over every ordered pair of wrappers (children stalled independently, so one child is ready long before the other). Block 3: random trees of depth 2-3 (25% combinators, stalled leaves and inner Stall nodes). Leaves in view positions are Probe stubs (Echo semantics + delivery log). One feed of 50-400 values (1.2% of runs are long: 4 200-20 000, 66-80k, 132-150k or 1.05-1.1M values) in 14 workload shapes with extra and early last() calls interleaved. Oracles: per delivery, every probe's log has exactly one new entry carrying the current event number and the fed bit pattern; at the end, for every level of the tree, the composed output sequence is bit-identical to: stand-alone inner subtree -> (only when it has an output) stand-alone outer node built over Echo; for combinators Some iff both stand-alone children are Some, and bit-identical to the combinator over Replay stubs of its children's outputs. distinct = distinct (topology, event-kind schedule); non-trivial = the tree has a stalled child or a combinator."
             .into()
     }
     fn assumptions(&self) -> Vec<String> {
